@@ -62,8 +62,16 @@ def _times_big(rng, n):
     u = math.ulp(base)
     k0 = max(1, math.ceil(1.2e-7 / u))
     out = [base]
+    taken = set()          # integers some value is written as (known finding F23: no second value may share one; corpus/C01 does)
     while len(out) < n + 1:
-        out.append(out[-1] + u * rng.randint(k0, k0 + 40))
+        x = out[-1] + u * rng.randint(k0, k0 + 40)
+        tk = iogen.token(x)
+        while tk["near_int"] and tk["int_str"] in taken:
+            x += u * rng.randint(k0, k0 + 40)
+            tk = iogen.token(x)
+        if tk["near_int"]:
+            taken.add(tk["int_str"])
+        out.append(x)
     return out
 
 
@@ -339,5 +347,18 @@ def finding_match(case, r, kind, why, findings):
         pred = f.get("matcher", {}).get("pred")
         if pred == "exponent_time_long_format" and case["fmt"] == "long_textgrid":
             if any("e" in repr(float(v)) for v in case["vals"]):
+                return f["id"]
+        if pred == "distinct_times_same_integer" and case["fmt"] in ("short_textgrid", "long_textgrid"):
+            # F23: two different times of this textgrid are both written as the same integer (each is within 1e-14,
+            # relative, of it), and what fails is the reopening / the times that come back -- nothing else is excused
+            used = sorted(set(case["vals"][k] for k in iogen.all_ticks(case["g"])))
+            ints = {}
+            for v in used:
+                tk = iogen.token(v)
+                if tk["near_int"]:
+                    ints.setdefault(tk["int_str"], set()).add(v)
+            collapsed = any(len(vs) > 1 for vs in ints.values())
+            expected = ("reopening raised TextgridStateError", "came back as", "labelled entries became", "span changed")
+            if collapsed and all(any(e in part for e in expected) for part in why.split("; ")):
                 return f["id"]
     return None
